@@ -32,6 +32,8 @@ Pre == CASE InitKind = "empty"  -> <<>>
          [] InitKind = "regen"  -> << [op |-> "build", g |-> 1], [op |-> "compile", v |-> 1, m |-> 1],
                                       [op |-> "get", m |-> 1, h |-> 1], [op |-> "drop_rt"],
                                       [op |-> "build", g |-> 2] >>
+         [] InitKind = "clo"    -> << [op |-> "build", g |-> 1], [op |-> "compile", v |-> 1, m |-> 1],
+                                      [op |-> "get", m |-> 1, h |-> 1], [op |-> "into_func", h |-> 1, c |-> 1] >>
          [] InitKind = "same"   -> << [op |-> "build", g |-> 1], [op |-> "compile", v |-> 1, m |-> 1],
                                       [op |-> "compile", v |-> 1, m |-> 2],
                                       [op |-> "get", m |-> 1, h |-> 1], [op |-> "get", m |-> 2, h |-> 2] >>
@@ -40,9 +42,11 @@ MCInit == Init /\ hist = <<>>
 
 LowestFree == CHOOSE h \in Handles : hnd[h] = 0 /\ \A x \in Handles : hnd[x] = 0 => h <= x
 HasFree    == \E h \in Handles : hnd[h] = 0
+LowestFreeC == CHOOSE c \in Closures : clo[c] = 0 /\ \A x \in Closures : clo[x] = 0 => c <= x
+HasFreeC    == \E c \in Closures : clo[c] = 0
 
 Step(r) == /\ IF Len(hist) < Len(Pre) THEN Pre[Len(hist) + 1] = r ELSE TRUE
-           /\ hist' = Append(hist, r @@ (IF r.op \in {"call", "move"}
+           /\ hist' = Append(hist, r @@ (IF r.op \in {"call", "move", "call_closure"}
                                           THEN [res |-> ResVec(obs'), live |-> LiveVec']
                                           ELSE [live |-> LiveVec']))
 
@@ -60,6 +64,10 @@ MCNext ==
           \/ Call(h)         /\ Step([op |-> "call", h |-> h])
           \/ DropHandle(h)   /\ Step([op |-> "drop_handle", h |-> h])
           \/ MoveToThread(h) /\ Step([op |-> "move", h |-> h])
+          \/ HasFreeC /\ IntoFunc(h, LowestFreeC) /\ Step([op |-> "into_func", h |-> h, c |-> LowestFreeC])
+     \/ \E c \in Closures :
+          \/ CallClosure(c) /\ Step([op |-> "call_closure", c |-> c])
+          \/ DropClosure(c) /\ Step([op |-> "drop_closure", c |-> c])
 
 MCSpec == MCInit /\ [][MCNext]_<<vars, hist>>
 
@@ -68,6 +76,7 @@ Case == [init |-> InitKind, npre |-> Len(Pre), ops |-> hist]
 Stuck == /\ rt = 0 /\ Len(gens) = MaxGens
          /\ \A m \in Mods : ~mods[m].pobj
          /\ \A h \in Handles : hnd[h] = 0
+         /\ \A c \in Closures : clo[c] = 0
 Emit == (Len(hist) = Len(Pre) + N \/ (Len(hist) >= Len(Pre) /\ Stuck))
             => PrintT(<<"REPLAY", ToJson(Case)>>)
 
